@@ -114,6 +114,15 @@ func init() {
 					c01Eval(c, c01stats, a, false)
 				}, nil
 			}
+			// objects built as struct literals without the canonical-profile field (nothing can equal "")
+			Scenarios[fmt.Sprintf("c01.uninitialised.p%d.b%d", p, b)] = func() (choice.Scenario, func() any) {
+				g := newCoarseGen(p, b)
+				return func(c *choice.Ctx) {
+					a := g.gen(c, "")
+					a.Canon = ""
+					c01Eval(c, c01stats, a, false)
+				}, nil
+			}
 			Scenarios[fmt.Sprintf("c01.fine.p%d.b%d", p, b)] = func() (choice.Scenario, func() any) {
 				g := newCoarseGen(p, b)
 				axes := fineAxes(p)
@@ -241,6 +250,7 @@ func init() {
 				exploreChoice(r, fmt.Sprintf("c01.complist.p%d.b0", p), 2, dl)
 				exploreChoice(r, fmt.Sprintf("c01.inplace.p%d.b0", p), 2, dl)
 				exploreChoice(r, fmt.Sprintf("c01.inplace.p%d.b1", p), 2, dl)
+				exploreChoice(r, fmt.Sprintf("c01.uninitialised.p%d.b0", p), 2, dl)
 			}
 		} else {
 			for _, p := range []int{1, 2} {
@@ -251,6 +261,9 @@ func init() {
 				}
 				exploreChoice(r, fmt.Sprintf("c01.complist.p%d.b0", p), 3, dl)
 				exploreChoice(r, fmt.Sprintf("c01.complist.p%d.b1", p), 2, dl)
+				for b := 0; b < 4; b++ {
+					exploreChoice(r, fmt.Sprintf("c01.uninitialised.p%d.b%d", p, b), 3, dl)
+				}
 				for b := 0; b < 4; b++ {
 					exploreChoice(r, fmt.Sprintf("c01.inplace.p%d.b%d", p, b), 3, dl)
 				}
